@@ -51,6 +51,12 @@ def _deleting_loop(loop_ev):
 
 def run(ctx):
     model = ctx.model
+    shared.import_rule(ctx, "C06", ("R06.scope",), "R13.scope",
+                       "every statement of a namespace is confined to its own app (same rule "
+                       "instances as R06.scope)",
+                       "rows are attached to or shared with another app's mailbox: the owning "
+                       "app's sweep deletes the mailbox under the other app's subscriber, whose "
+                       "later rows (messages without a mailbox) no sweep ever finds", minimum=10)
     shared.r_collation(ctx, "R13.exact", FIVE,
                        "the sweep enumerates application ids / channel ids that are no "
                        "longer the strings it stored (mixed types cannot be ordered, keyed "
